@@ -385,6 +385,20 @@ def nextLoop (cfg : DCfg) : Nat → LState → Entry → Bytes → Option (Optio
 def next (cfg : DCfg) (ls : LState) (bs : Bytes) : Option (Option Entry × LState × Bytes) :=
   nextLoop cfg (bs.length + 1) ls {} bs
 
+/-- all entries of the value that starts at `bs`: `Next` until the value is
+    complete (one entry, or several chunks of a split hash table) -/
+def nextValue (cfg : DCfg) : Nat → LState → Bytes → Option (List Entry × LState × Bytes)
+  | 0, _, _ => none
+  | fuel+1, ls, bs =>
+    match next cfg ls bs with
+    | some (some e, ls', rest) =>
+      if ls'.total - ls'.read = 0 then some ([e], ls', rest)
+      else
+        match nextValue cfg fuel ls' rest with
+        | some (es, l, r) => some (e :: es, l, r)
+        | none => none
+    | _ => none
+
 /-! ## Header, Footer, ParseRdb -/
 
 /-- `Loader.Header`: 9 bytes, "REDIS" + version 1..RdbVersion -/
